@@ -18,12 +18,21 @@ func init() {
 var c01stats = map[string]int{}
 var c01sizes = map[string]int{}
 
+// every fifth converter call runs with the exported debug switch on: printing must not change results
+var dbgCalls int
+
+func dbgTick() {
+	dbgCalls++
+	rpl.DebugRWPhelpers = dbgCalls%5 == 0
+}
+
 func callEnc(msgs []*rwp.InboundMessage) (obs Sx) {
 	defer func() {
 		if r := recover(); r != nil {
 			obs = Sym("panic")
 		}
 	}()
+	dbgTick()
 	lines := rpl.InboundMessagesToRawPanelASCIIstrings(msgs)
 	r := []Sx{}
 	for _, l := range lines {
